@@ -50,6 +50,17 @@ fn has_own_continue(b: &syn::Block) -> bool {
     syn::visit::Visit::visit_block(&mut v, b);
     v.found
 }
+/// a closure body that is inlined into the enclosing function must not `return` (it would leave the function instead of the closure)
+fn closure_body_returns(e: &syn::Expr) -> bool {
+    struct V { found: bool }
+    impl<'ast> syn::visit::Visit<'ast> for V {
+        fn visit_expr_return(&mut self, _: &'ast syn::ExprReturn) { self.found = true; }
+        fn visit_expr_closure(&mut self, _: &'ast syn::ExprClosure) {}
+    }
+    let mut v = V { found: false };
+    syn::visit::Visit::visit_expr(&mut v, e);
+    v.found
+}
 /// replaces every use of the plain identifier `ident` (as an expression) by `rep`
 struct PathReplacer {
     ident: String,
@@ -632,6 +643,7 @@ impl<'a> VisitMut for Rules<'a> {
                                         if map.method == "map" && map.args.len() == 1 {
                                             if let (syn::Expr::Closure(cl), syn::Expr::MethodCall(it)) = (&map.args[0], &*map.receiver) {
                                                 if it.method == "into_iter" && it.args.is_empty() && cl.inputs.len() == 1 {
+                                                    if closure_body_returns(&cl.body) { crate::lost("R48c: the closure body contains `return`; inlining it would change its meaning"); }
                                                     let a = &it.receiver;
                                                     let pat = match &cl.inputs[0] { syn::Pat::Type(pt) => (*pt.pat).clone(), p => p.clone() };
                                                     let body = &cl.body;
@@ -664,6 +676,53 @@ impl<'a> VisitMut for Rules<'a> {
             }
             b.stmts = out;
         }
+        if self.ctx.on("R57") {
+            // R57: statement `V.retain(|P| BODY);` on a vector listed in opts.retain_vecs (a `&mut Vec` parameter) -> position loop: the closure runs
+            // once per element in index order, the elements it accepts are kept in order (documented contract of Vec::retain); state captured by
+            // the closure (a counter) is updated by the inlined BODY exactly as the closure would
+            let mut out: Vec<syn::Stmt> = Vec::with_capacity(b.stmts.len());
+            for st in b.stmts.drain(..) {
+                let mut rep: Option<Vec<syn::Stmt>> = None;
+                if let syn::Stmt::Expr(syn::Expr::MethodCall(rt), Some(_)) = &st {
+                    if rt.method == "retain" && rt.args.len() == 1 {
+                        let rtxt = norm(&rt.receiver.to_token_stream().to_string());
+                        let listed = self.ctx.opts["retain_vecs"].as_array().map(|a| a.iter().any(|v| v.as_str().map(norm).as_deref() == Some(&rtxt))).unwrap_or(false);
+                        if let (true, syn::Expr::Closure(cl)) = (listed, &rt.args[0]) {
+                            if cl.inputs.len() == 1 {
+                                if closure_body_returns(&cl.body) { crate::lost("R57: the closure body contains `return`; inlining it would change its meaning"); }
+                                let v = &rt.receiver;
+                                let body = &cl.body;
+                                let k = self.ctx.fresh();
+                                let nn = syn::Ident::new(&format!("vx_n{}", k), proc_macro2::Span::call_site());
+                                let ii = syn::Ident::new(&format!("vx_i{}", k), proc_macro2::Span::call_site());
+                                let ee = syn::Ident::new(&format!("vx_e{}", k), proc_macro2::Span::call_site());
+                                let kp = syn::Ident::new(&format!("vx_keep{}", k), proc_macro2::Span::call_site());
+                                let oo = syn::Ident::new(&format!("vx_rt{}", k), proc_macro2::Span::call_site());
+                                let bind: Option<syn::Stmt> = match match &cl.inputs[0] { syn::Pat::Type(pt) => (*pt.pat).clone(), p => p.clone() } {
+                                    syn::Pat::Wild(_) => None,
+                                    p => Some(syn::parse_quote!(let #p = &#ee;)),
+                                };
+                                let bind_it = bind.into_iter();
+                                rep = Some(vec![
+                                    syn::parse_quote!(let #nn = #v.len();),
+                                    syn::parse_quote!(let mut #oo = Vec::new();),
+                                    syn::Stmt::Expr(syn::parse_quote!(for #ii in 0..#nn {
+                                        let #ee = vx_vec_take(&*#v, #ii);
+                                        #(#bind_it)*
+                                        let #kp = #body;
+                                        if #kp { #oo.push(#ee); }
+                                    }), None),
+                                    syn::parse_quote!(*#v = #oo;),
+                                ]);
+                                self.ctx.used("R57");
+                            }
+                        }
+                    }
+                }
+                match rep { Some(v) => out.extend(v), None => out.push(st) }
+            }
+            b.stmts = out;
+        }
         if self.ctx.on("R56") {
             // R56: statement `A.iter_mut().for_each(|c| E);` -> index loop: the element is taken out, E runs on it, it is written back at the
             // same position (std definition of for_each over iter_mut: every element once, in order)
@@ -675,6 +734,7 @@ impl<'a> VisitMut for Rules<'a> {
                         if let (syn::Expr::Closure(cl), syn::Expr::MethodCall(it)) = (&fe.args[0], &*fe.receiver) {
                             if it.method == "iter_mut" && it.args.is_empty() && cl.inputs.len() == 1 {
                                 if let syn::Pat::Ident(pid) = match &cl.inputs[0] { syn::Pat::Type(pt) => (*pt.pat).clone(), p => p.clone() } {
+                                    if closure_body_returns(&cl.body) { crate::lost("R56: the closure body contains `return`; inlining it would change its meaning"); }
                                     let a = &it.receiver;
                                     let c = &pid.ident;
                                     let body = &cl.body;
@@ -1437,6 +1497,48 @@ impl<'a> VisitMut for Rules<'a> {
                 return;
             }
         }
+        if self.ctx.on("R59") {
+            // R59: `A.iter().enumerate().filter_map(|(i, v)| BODY).collect::<Vec<T>>()` -> index loop that pushes the payload of every `Some` BODY
+            // yields, in order (std definitions of enumerate / filter_map / collect)
+            if let syn::Expr::MethodCall(col) = e {
+                let tf = col.turbofish.as_ref().map(|t| norm(&t.args.to_token_stream().to_string())).unwrap_or_default();
+                if col.method == "collect" && col.args.is_empty() && tf.starts_with("Vec<") {
+                    if let syn::Expr::MethodCall(fm) = &*col.receiver {
+                        if fm.method == "filter_map" && fm.args.len() == 1 {
+                            if let (syn::Expr::Closure(cl), syn::Expr::MethodCall(en)) = (&fm.args[0], &*fm.receiver) {
+                                if en.method == "enumerate" && en.args.is_empty() && cl.inputs.len() == 1 {
+                                    if let (syn::Expr::MethodCall(it), syn::Pat::Tuple(tp)) = (&*en.receiver, match &cl.inputs[0] { syn::Pat::Type(pt) => &*pt.pat, p => p }) {
+                                        if it.method == "iter" && it.args.is_empty() && tp.elems.len() == 2 {
+                                            let a = (*it.receiver).clone();
+                                            let (ip, vp) = (tp.elems[0].clone(), tp.elems[1].clone());
+                                            let body = (*cl.body).clone();
+                                            let vty: syn::Type = syn::parse_str(&tf).unwrap_or_else(|_| syn::parse_quote!(Vec<_>));
+                                            let k = self.ctx.fresh();
+                                            let nn = syn::Ident::new(&format!("vx_n{}", k), proc_macro2::Span::call_site());
+                                            let ii = syn::Ident::new(&format!("vx_i{}", k), proc_macro2::Span::call_site());
+                                            let oo = syn::Ident::new(&format!("vx_fm{}", k), proc_macro2::Span::call_site());
+                                            *e = syn::parse_quote!({
+                                                let mut #oo: #vty = Vec::new();
+                                                let #nn = #a.len();
+                                                for #ii in 0..#nn {
+                                                    let #ip = #ii;
+                                                    let #vp = &#a[#ii];
+                                                    match #body { Some(vx_fm_v) => { #oo.push(vx_fm_v); } None => {} }
+                                                }
+                                                #oo
+                                            });
+                                            self.ctx.used("R59");
+                                            syn::visit_mut::visit_expr_mut(self, e);
+                                            return;
+                                        }
+                                    }
+                                }
+                            }
+                        }
+                    }
+                }
+            }
+        }
         if self.ctx.on("R22") {
             if let Some(new) = self.rewrite_map_collect(e) {
                 *e = new;
@@ -1786,6 +1888,31 @@ impl<'a> VisitMut for Rules<'a> {
                     self.ctx.used("R26");
                     syn::visit_mut::visit_expr_mut(self, e);
                     return;
+                }
+            }
+            if self.ctx.on("R56") {
+                // R56b: `for c in A.iter_mut() { B }` (B without `continue`) -> index loop: the element is taken out, B runs on it, it is written back
+                if let (syn::Expr::MethodCall(it), syn::Pat::Ident(pid)) = (&*fl.expr, &*fl.pat) {
+                    if it.method == "iter_mut" && it.args.is_empty() && !has_own_continue(&fl.body) {
+                        let a = (*it.receiver).clone();
+                        let c = pid.ident.clone();
+                        let stmts = &fl.body.stmts;
+                        let k = self.ctx.fresh();
+                        let nn = syn::Ident::new(&format!("vx_n{}", k), proc_macro2::Span::call_site());
+                        let ii = syn::Ident::new(&format!("vx_i{}", k), proc_macro2::Span::call_site());
+                        let new: syn::Expr = syn::parse_quote!({
+                            let #nn = #a.len();
+                            for #ii in 0..#nn {
+                                let mut #c = vx_vec_take(&#a, #ii);
+                                #(#stmts)*
+                                #a.set(#ii, #c);
+                            }
+                        });
+                        *e = new;
+                        self.ctx.used("R56");
+                        syn::visit_mut::visit_expr_mut(self, e);
+                        return;
+                    }
                 }
             }
             if self.ctx.on("R31") {
